@@ -72,7 +72,7 @@ func runCodecx(ctx *core.Ctx, tier string) {
 // ---------- part 1: texts ----------
 
 var specialTexts = []string{
-	`"AA\/\"\\\b\f\n\r\t"`, `"😀"`, `"\ud800"`, `"\udc00x"`, `"\ud800A"`, "\"é\U0001F600  \"", `"<>&"`, `"< "`,
+	`"AA\/\"\\\b\f\n\r\t"`, `"😀"`, `"\ud800"`, `"\udc00x"`, `"\ud800A"`, `"\udc00\udc00"`, `"\ud800\ud800"`, `"\udc00\ud800"`, `"\ud800\udc00\udc00"`, `"\udc00\ud800\udc00"`, `{"\udc00":1,"\udc00\udc00":2}`, "\"é\U0001F600  \"", `"<>&"`, `"< "`,
 	`-0`, `1.0`, `1E+2`, `1e400`, `12345678901234567890123`, `0.1e-7`, `-1.5E-0`, `[1.0,1.00,-0.0,1e0]`,
 	`{"b":1.0,"a":{"z":null,"y":[1e400]},"":"", "A":2}`, `{"k":"‸‹›‿‪"}`, `[" ‸","¨("]`,
 	`{"x":{"x":{"x":[[[{"deep":true}]]]}}}`, `"\u007f\u0080\u07ff\u0800\uffff\ud800\udc00\udbff\udfff"`, "\"\u0080\u07ff\u0800\uffff\U00010000\U0010FFFF\u2068\u2069\"", ` [ ] `, ` { } `, `"\u0000\u001f\u007f"`,
@@ -99,6 +99,12 @@ func (c *codecRun) partTexts() {
 			}
 		}
 	}
+	// string shapes (run-length patterns incl. invalid UTF-8): judged against encoding/json, which defines
+	// what invalid bytes decode to
+	for _, sh := range stringShapes() {
+		c.shapeText(`"` + sh + `"`)
+		c.shapeText(`{"` + sh + `":["` + sh + `"]}`)
+	}
 	c.ctx.Count("texts", int64(len(texts)))
 	for i, t := range texts {
 		c.ctx.AddState("text:" + t)
@@ -111,6 +117,38 @@ func (c *codecRun) partTexts() {
 		if i%(len(texts)/5+1) == 0 {
 			c.ctx.Sample(map[string]string{"text": t}, 10)
 		}
+	}
+}
+
+func (c *codecRun) shapeText(t string) {
+	cc := CodecCase{What: "string shape vs encoding/json", Text: t}
+	defer func() {
+		if r := recover(); r != nil {
+			c.viol("texts", "codec-panics", "codec-panics", fmt.Sprintf("%v on %q", r, t), cc)
+		}
+	}()
+	c.ctx.AddState("shape:" + t)
+	var fv, sv interface{}
+	fe := zj.Unmarshal([]byte(t), &fv)
+	se := stdjson.Unmarshal([]byte(t), &sv)
+	atomic.AddInt64(c.n, 1)
+	if (fe == nil) != (se == nil) {
+		c.viol("texts", "unmarshal-error-differs", "unmarshal-error-differs:shape", fmt.Sprintf("Unmarshal(%q): fork err=%v, encoding/json err=%v", t, fe, se), cc)
+		return
+	}
+	if fe != nil {
+		return
+	}
+	fb, fe2 := zj.Marshal(fv)
+	sb, se2 := stdjson.Marshal(sv)
+	if (fe2 == nil) != (se2 == nil) || !bytes.Equal(normBF(fb), normBF(sb)) {
+		c.viol("texts", "roundtrip-differs-from-stdlib", "roundtrip-differs-from-stdlib", fmt.Sprintf("Unmarshal+Marshal of %q: fork %q err=%v, encoding/json %q err=%v", t, fb, fe2, sb, se2), cc)
+	}
+	var cb bytes.Buffer
+	var sc bytes.Buffer
+	ce, sce := zj.Compact(&cb, []byte(t)), stdjson.Compact(&sc, []byte(t))
+	if (ce == nil) != (sce == nil) || !bytes.Equal(cb.Bytes(), sc.Bytes()) {
+		c.viol("texts", "compact-differs", "compact-differs", fmt.Sprintf("Compact(%q): fork %q, encoding/json %q", t, cb.Bytes(), sc.Bytes()), cc)
 	}
 }
 
